@@ -11,24 +11,35 @@ Lim == 2147483646                      \* 2^31-2: every counter must stay below 
 
 InRange(x) == x # 0 /\ x < Lim
 
-RECURSIVE MaxLam(_, _)
-MaxLam(ps, k) == IF k = 0 THEN 0 ELSE LET r == MaxLam(ps, k - 1) IN IF ps[k].lamport > r THEN ps[k].lamport ELSE r
+\* Apalache type annotations (comments for TLC): an event and a parent entry
+\* @typeAlias: ev = { creator: Int, epoch: Int, seq: Int, frame: Int, lamport: Int };
+\* @typeAlias: par = { creator: Int, seq: Int, lamport: Int, k: Int };
+EventCheckAliases == TRUE
+\* @type: Seq($par);
+NoParents == <<>>
+
+\* the largest parent Lamport time, 0 when there is no parent
+\* @type: Seq($par) => Int;
+MaxLam(ps) == IF Len(ps) = 0 THEN 0
+              ELSE LET S == {ps[i].lamport : i \in DOMAIN ps} IN CHOOSE m \in S : \A x \in S : x <= m
 
 \* the positions of the parents created by the event's own creator
-Own(e, ps) == {i \in 1..Len(ps) : ps[i].creator = e.creator}
+\* @type: ($ev, Seq($par)) => Set(Int);
+Own(e, ps) == {i \in DOMAIN ps : ps[i].creator = e.creator}
 
 \* the clauses, named so that a vector can tell which of them it violates
+\* @type: ($ev, Seq($par), Int, Set(Int)) => { seq_range: Bool, epoch_range: Bool, frame_range: Bool, lamport_range: Bool, distinct: Bool, has_parents: Bool, epoch_current: Bool, creator_valid: Bool, lamport_next: Bool, self_first: Bool, self_iff_seq: Bool, self_seq: Bool };
 Clauses(e, ps, cur, vals) ==
   [ seq_range     |-> InRange(e.seq),
     epoch_range   |-> InRange(e.epoch),
     frame_range   |-> InRange(e.frame),
     lamport_range |-> InRange(e.lamport),
-    distinct      |-> \A i, j \in 1..Len(ps) : i # j => ps[i].k # ps[j].k,
+    distinct      |-> \A i, j \in DOMAIN ps : i # j => ps[i].k # ps[j].k,
     has_parents   |-> (e.seq > 1 => Len(ps) > 0),
     epoch_current |-> e.epoch = cur,
     creator_valid |-> e.creator \in vals,
     \* one more than the largest parent Lamport time (0 when there is no parent); written without e.lamport+1
-    lamport_next  |-> e.lamport - 1 = MaxLam(ps, Len(ps)),
+    lamport_next  |-> e.lamport - 1 = MaxLam(ps),
     \* the only parent by the event's own creator is the first one ...
     self_first    |-> Own(e, ps) \subseteq {1},
     \* ... present exactly when the sequence exceeds 1 ...
@@ -39,6 +50,14 @@ Clauses(e, ps, cur, vals) ==
 ClauseNames == {"seq_range", "epoch_range", "frame_range", "lamport_range", "distinct", "has_parents", "epoch_current",
                 "creator_valid", "lamport_next", "self_first", "self_iff_seq", "self_seq"}
 
-Violated(e, ps, cur, vals) == LET c == Clauses(e, ps, cur, vals) IN {n \in ClauseNames : ~c[n]}
+\* @type: ($ev, Seq($par), Int, Set(Int)) => Set(Str);
+Violated(e, ps, cur, vals) ==
+  LET c == Clauses(e, ps, cur, vals) IN
+  {n \in ClauseNames :
+     \/ (n = "seq_range" /\ ~c.seq_range) \/ (n = "epoch_range" /\ ~c.epoch_range) \/ (n = "frame_range" /\ ~c.frame_range)
+     \/ (n = "lamport_range" /\ ~c.lamport_range) \/ (n = "distinct" /\ ~c.distinct) \/ (n = "has_parents" /\ ~c.has_parents)
+     \/ (n = "epoch_current" /\ ~c.epoch_current) \/ (n = "creator_valid" /\ ~c.creator_valid) \/ (n = "lamport_next" /\ ~c.lamport_next)
+     \/ (n = "self_first" /\ ~c.self_first) \/ (n = "self_iff_seq" /\ ~c.self_iff_seq) \/ (n = "self_seq" /\ ~c.self_seq)}
+\* @type: ($ev, Seq($par), Int, Set(Int)) => Bool;
 WellFormed(e, ps, cur, vals) == Violated(e, ps, cur, vals) = {}
 =============================================================================
